@@ -327,7 +327,7 @@ def run(ctx):
     ctx.log("ran %d cases through PSy-layer and stub generation in %.0fs" % (len(specs), time.time() - t0))
     # ---- 4. the property on the implementation's results
     violations, coq_cases, coq_idx = [], [], []
-    n_unexplained = n_unencodable = 0
+    n_unexplained = n_unencodable = n_dup = 0
     both = []
     for k, (sp, res) in enumerate(zip(specs, results)):
         key = {x: sp[x] for x in ("operates_on", "args", "funcs", "shapes", "targets", "refelem", "mesh", "code")
@@ -357,6 +357,25 @@ def run(ctx):
             ctx.hist("options", "distributed-memory")
         if sp.get("invoke"):
             ctx.hist("options", "%d kernels in the invoke" % len(sp["invoke"]))
+        # (0) direct oracles on each generated list: every quantity is passed once
+        dup_s = dup_c = []
+        if res.get("stub"):
+            names = [d["name"] for d in res["stub"]["dummies"]]
+            dup_s = sorted({x for x in names if names.count(x) > 1})
+        if res.get("call"):
+            acts = [X.norm(x["text"]) for x in res["call"]["shapes"] if x["definable"] or not
+                    (x["text"].strip()[0] in "0123456789.+-")]
+            dup_c = sorted({x for x in acts if acts.count(x) > 1})
+        if dup_s or dup_c:
+            n_dup += 1
+            ctx.hist("duplicate_argument", ",".join(dup_s or dup_c))
+            if n_dup <= 3:
+                ctx.violation(replay_info(ctx, sp, res, {
+                    "what": "an argument is passed twice: the documented rules pass every quantity once"
+                            + ("; a dummy argument name occurring twice makes the generated stub invalid Fortran"
+                               if dup_s else ""),
+                    "duplicated_stub_dummies": dup_s, "duplicated_call_actuals": dup_c,
+                    "known_doc_discrepancy_classes_of_this_metadata": S.rules_unsafe_reasons(sp, variant)}))
         # (i) call vs stub
         if has_both:
             both.append(k)
@@ -472,14 +491,23 @@ def run(ctx):
                  .replace(";", " ").split() if x in ("true", "false")][:len(DIAG)]
         broken = [DIAG[i] for i, f in enumerate(flags) if not f]
         ctx.hist("broken_relation", " + ".join(broken) or "unparsed")
-        if len(flags) == len(DIAG) and (not flags[7] or not flags[8]) and n_doc_viol < 3:
+        if len(flags) == len(DIAG) and not all(flags[i] for i in (0, 1, 7, 8)) and n_doc_viol < 3:
             n_doc_viol += 1
-            # concrete input on which the implementation departs from the documented rules
-            doc = ctx.coq_eval_show(HEADER, ["map (fun s => role_tag (fst s)) (doc_list %s)" % E.metadata(specs[k])])
+            # concrete input on which the implementation departs from the documented rules: either directly
+            # (rules_safe holds) or because it departs from the model, which is proved equal to the rules
+            # except for the listed discrepancy classes (all of which the model reproduces)
+            m_ = E.metadata(specs[k])
+            doc = ctx.coq_eval_show(HEADER, ["map (fun s => role_tag (fst s)) (doc_list %s)" % m_,
+                                             "map (fun s => role_tag (fst s)) (call_list gen_variant %s)" % m_,
+                                             "map (fun s => role_tag (fst s)) (stub_list gen_variant %s)" % m_])
             ctx.violation(replay_info(ctx, specs[k], results[k], {
-                "what": "the generated argument list does not follow the documented argument-ordering rules "
-                        "(doc/user_guide/dynamo0p3.rst) although no known discrepancy applies (rules_safe holds)",
-                "documented_roles": doc[0][:2500],
+                "what": "the argument list generated for this metadata does not follow the documented "
+                        "argument-ordering rules (doc/user_guide/dynamo0p3.rst): it differs from the rules directly "
+                        "(rules_safe holds) and/or from the model of ArgOrdering, which is proved to equal the rules "
+                        "up to the known discrepancy classes listed below (none of which explains the difference, "
+                        "the model reproduces them)",
+                "known_doc_discrepancy_classes_of_this_metadata": S.rules_unsafe_reasons(specs[k], variant),
+                "documented_roles": doc[0][:2500], "model_call_roles": doc[1][:2500], "model_stub_roles": doc[2][:2500],
                 "observed_call_roles": [E.tag_of(x["text"]) for x in results[k]["call"]["shapes"]] if results[k].get("call") else None,
                 "observed_stub_roles": [E.tag_of(x["name"]) for x in results[k]["stub"]["dummies"]] if results[k].get("stub") else None,
                 "broken_relations": broken}))
